@@ -386,4 +386,41 @@ class C16(Prop):
             v.evaluations += 16
 
 
-PROPS = {"C16": C16(), "C13": C13(), "C15": C15(), "C14": C14(), "C07": C07(), "C08": C08(), "C09": C09(), "C10": C10(), "C04": C04(), "C12": C12(), "C02": C02(), "C01": C01(), "C05": C05(), "C06": C06(), "C20": C20(), "C19": C19(), "C17": C17(), "C18": C18()}
+def _validate_one(path):
+    sys.path.insert(0, os.path.join(vlib.VERIF, "monitors"))
+    import xlsx_validate
+    try:
+        return path, [(c, m[:300]) for c, m in xlsx_validate.validate(path)]
+    except Exception as e:
+        return path, [("validator-error", repr(e)[:300])]
+
+
+class C11(Prop):
+    cmd = "c11"
+    cases = {"quick": 150, "thorough": 6000}
+    rule = ("every non-empty corpus file (3 histories each, thorough 12) and generated multi-sheet workbooks (C02 generator: cross-sheet shared strings, styles, hyperlinks, comments, tables); "
+            "histories of 1-10 operations over read_sheet, read_sheet_by_name, get_sheet_mut, get_sheet_by_name_mut, read_sheet_collection, cell edits, new_sheet, remove_sheet, set_sheet_name, "
+            "workbook-level insert/remove, applied identically to a lazily and an eagerly opened workbook; distinct by hash of (file, history)")
+    assumptions = ["oracle: the eagerly loaded workbook subjected to the same history (differential); accessed sheets are compared after every operation, the two saved results after reloading both eagerly",
+                   "files saved from the lazy workbook are checked by monitors/xlsx_validate.py",
+                   "an operation that fails on both workbooks alike ends the history (not a lazy/eager difference)"]
+
+    def post(self, v, res, out, tier, seed):
+        from multiprocessing import Pool
+        files = [json.loads(l) for l in open(os.path.join(out, "files.jsonl"), encoding="utf-8")]
+        with Pool(16) as pool:
+            results = dict(pool.map(_validate_one, [os.path.join(out, f["file"]) for f in files], chunksize=4))
+        v.counters["lazy-saved-files-validated"] = len(files)
+        groups = {}
+        for f in files:
+            for cls, msg in results[os.path.join(out, f["file"])]:
+                sig = "lazy-output-invalid:" + cls + ("@" + f["origin"] if f["origin"] != "generated" else "")
+                e = groups.setdefault(sig, [0, []])
+                e[0] += 1
+                if len(e[1]) < 3:
+                    e[1].append({"cmd": "c11", "seed": f["seed"], "case": f["case"], "sig": sig, "features": [], "detail": "%s after %s: %s" % (f["origin"], f["history"], msg)})
+        for sig, (cnt, exs) in groups.items():
+            v.add_divergence(sig, [], cnt, exs)
+
+
+PROPS = {"C11": C11(), "C16": C16(), "C13": C13(), "C15": C15(), "C14": C14(), "C07": C07(), "C08": C08(), "C09": C09(), "C10": C10(), "C04": C04(), "C12": C12(), "C02": C02(), "C01": C01(), "C05": C05(), "C06": C06(), "C20": C20(), "C19": C19(), "C17": C17(), "C18": C18()}
